@@ -56,6 +56,7 @@ type ErrM struct {
 	Contains []string
 	Why      string
 	Token    string // the raw %token% the error must name; other Contains are looked up outside of it
+	Not      []string // substrings that must NOT occur outside the token (e.g. the default text when a message was given)
 }
 
 func errf(why string, contains ...string) *ErrM { return &ErrM{Contains: contains, Why: why} }
@@ -448,7 +449,11 @@ func (it *Interp) callFn(name string, args []any) (any, *ErrM) {
 		case "paramTodo":
 			if len(args) > 0 {
 				if s, ok := args[0].(string); ok {
-					return nil, errf("todo with message", s)
+					e := errf("todo with message", s)
+					if !strings.Contains(s, "parameter todo") {
+						e.Not = []string{"parameter todo"} // the given message replaces the default text, even an empty one
+					}
+					return nil, e
 				}
 				it.Unknown = "todo message is not a string"
 				return nil, errf("x")
@@ -479,6 +484,30 @@ func (it *Interp) callFn(name string, args []any) (any, *ErrM) {
 	case "FnInt":
 		it.hit(id + ".FnInt")
 		return 1000 + len(args), nil
+	case "FnTyped":
+		// typed parameters (float64, int64, string): numeric literals are converted, anything else is outside the model
+		if len(args) != 3 {
+			it.Unknown = "FnTyped arity"
+			return nil, errf("x")
+		}
+		var f float64
+		switch x := args[0].(type) {
+		case int:
+			f = float64(x)
+		case float64:
+			f = x
+		default:
+			it.Unknown = "FnTyped argument types"
+			return nil, errf("x")
+		}
+		n, okN := args[1].(int)
+		str, okS := args[2].(string)
+		if !okN || !okS {
+			it.Unknown = "FnTyped argument types"
+			return nil, errf("x")
+		}
+		it.hit(id + ".FnTyped")
+		return "FnTyped<" + id + ">(" + Shallow(f) + "," + Shallow(int64(n)) + "," + Shallow(str) + ")", nil
 	case "FnFail":
 		it.hit(id + ".FnFail")
 		return nil, errf("failing function", "FnFail<"+id+">")
